@@ -113,6 +113,7 @@ class Interp:
         self.solver_time = 0.0
         self.feas_checks = 0
         self.cur_func = []
+        self.volatile = {}          # (id(obj), field) -> reader: fields written by other threads (rely)
         from . import models
         models.install(self)
 
@@ -139,6 +140,7 @@ class Interp:
             self.spec_mode = 0
             self.old_mode = 0
             self.cur_func = []
+            self.volatile = {}
             try:
                 out = thunk()
                 outcomes.append((n, out))
@@ -659,7 +661,13 @@ class Interp:
             self.havoc_target(target, env, spec)
 
     def havoc_target(self, target, env, spec):
-        """target: spec expression naming a heap location: 'self.x' (attribute) or a container."""
+        """target: spec expression naming a heap location: 'self.x' (attribute) or a container;
+        'ghost:<name>' names a ghost scalar."""
+        if target.startswith('ghost:'):
+            gname = target[6:]
+            cur = self.ghost.get(gname)
+            self.ghost[gname] = self.havoc_value(cur, gname, spec)
+            return
         node = ast.parse(target, mode='eval').body
         if isinstance(node, ast.Attribute):
             obj = self.eval(node.value, env)
@@ -1238,6 +1246,8 @@ class Interp:
     def getattr_or_missing(self, obj, name):
         if isinstance(obj, PyObj):
             attrs = self.read_attrs(obj)
+            if self.volatile and not self.spec_mode and (id(obj), name) in self.volatile:
+                return self.volatile[(id(obj), name)](self, obj, name)
             if name in attrs:
                 return attrs[name]
             if name == '__class__':
@@ -1670,6 +1680,20 @@ class Interp:
                     self.old_mode -= 1
             if nm in ('forall', 'exists'):
                 return self.quantifier(nm, node, env)
+            if nm == 'unchanged' and len(node.args) == 1:
+                new = self.eval(node.args[0], env)
+                self.old_mode += 1
+                try:
+                    old = self.eval(node.args[0], env)
+                finally:
+                    self.old_mode -= 1
+                if isinstance(new, SymVal) and isinstance(old, SymVal):
+                    return new.k == old.k and (new.t.eq(old.t) or mk(new.t == old.t, 'bool') is True)
+                if isinstance(new, SymVal) or isinstance(old, SymVal):
+                    return False
+                if isinstance(new, (int, float, str, bool, type(None))):
+                    return type(new) is type(old) and new == old
+                return new is old
             if nm == 'implies' and len(node.args) == 2:
                 a = self.truth_term(self.eval(node.args[0], env))
                 if isinstance(a, bool):
@@ -1677,7 +1701,10 @@ class Interp:
                         return True
                     b = self.truth_term(self.eval(node.args[1], env))
                     return b if isinstance(b, bool) else mk(b, 'bool')
-                b = self.truth_term(self.eval(node.args[1], env))
+                try:
+                    b = self.truth_term(self.eval(node.args[1], env))
+                except PyRaise:
+                    b = False       # consequent undefined: the implication holds only where the antecedent is false
                 return mk(z3.Implies(a, z3.BoolVal(b) if isinstance(b, bool) else b), 'bool')
         fn = self.eval(node.func, env)
         args = []
@@ -1876,7 +1903,9 @@ class Interp:
     def eval_spec(self, text, env, extra=None):
         from .spec import parse_spec
         node = parse_spec(text)
-        senv = Env(dict(extra or {}), env, env.glob if env is not None else {}, env.func if env is not None else None)
+        ex = dict(getattr(self, 'spec_extra', None) or {})
+        ex.update(extra or {})
+        senv = Env(ex, env, env.glob if env is not None else {}, env.func if env is not None else None)
         senv.glob = _SpecGlobals(self, env.glob if env is not None else {})
         self.spec_mode += 1
         try:
